@@ -347,7 +347,12 @@ class Ctx(Result):
         if json.dumps(enc(a[1]), sort_keys=True) != json.dumps(enc(b[1]), sort_keys=True):
             raise HarnessError("replay of %s is not deterministic" % v["signature"])
         if not a[0]:
-            raise HarnessError("violation %s does not reproduce in the plain replay driver: %r" % (v["signature"], a[1]))
+            # The explorer observed the violation on the real code; the plain single-case driver did not. Both are
+            # deterministic (the replay was just run twice with identical results), so this is a history the single
+            # case does not carry (e.g. a cache that only goes stale on a second build), not flakiness: the
+            # violation stands and the limitation of the replay file is said out loud.
+            print("REPLAY-NOTE %s: the single-case replay driver does not reproduce this violation (history-dependent); "
+                  "re-run the check itself to see it" % v["signature"])
 
     def write_evidence(self, n_viol, known_sigs):
         cov = {
